@@ -2550,8 +2550,10 @@ void prepare_cases (parse_node_t * pn, size_t start) {
           int fi1, fi2;
           int l1, l2;
 
-          /* make sure line numbers exist for the cases */
-          save_file_info (current_file_id, current_line - current_line_saved);
+          /* make sure line numbers exist for the cases (a chunk of no lines would read as
+           * the opening of an include, see translate_absolute_line()) */
+          if (current_line - current_line_saved > 0)
+            save_file_info (current_file_id, current_line - current_line_saved);
           current_line_saved = current_line;
 
           translate_absolute_line ((*ce)->line, (unsigned short *) mem_block[A_FILE_INFO].block, mem_block[A_FILE_INFO].current_size, &fi1, &l1);
